@@ -1,5 +1,6 @@
 """Core-word dispatch rules (C11): P1 result numbering, P2 stack profile maintenance, P3 unsupported operand."""
-from zw import null_case_region, walk, walk_nolambda, unwrap, short, Broken, calls, field_chain
+import os
+from zw import REPO, null_case_region, walk, walk_nolambda, unwrap, short, Broken, calls, field_chain
 from cfg import CFG
 from r_pred import VEC_SHAPE
 
@@ -814,4 +815,135 @@ def p6(prog, tier="quick"):
                 report("P6:cmp", f_cmp, "value_seq::cmp answers `%s` for %s and %s (expected `%s`: by length, then element-wise)" % (pr(r), sa, sb, model_cmp(a, b)))
     for k in ("length", "?empty", "elem", "relem", "add", "?find", "?starts", "?ends", "cmp"):
         inst.append(("P6:" + k, {"sequences": len(seqs), "evaluations": n}))
+    return inst, findings
+
+
+# ---------------------------------------------------------------------------
+# P7: the shuffling words against their documented scheme table
+
+def p7(prog):
+    """dup / over / swap / rot / drop interpreted from source (their next() together with stack's own push/pop/get/top/need) on a
+    stack A B C D of four distinguishable values, against the before/after table of the docstring in builtin-shf.cc; the values
+    added by dup/over must be clones (fresh values), the others the very same values; too shallow a stack must raise the underflow
+    error and never read outside the value vector."""
+    import re
+    from cxxobj import CxxEvaluator, Obj, Vec, OutOfBounds
+    from absint import Thrown
+    inst, findings = [], []
+    # the documented table
+    src = open(os.path.join(REPO, "libzwerg/builtin-shf.cc")).read()
+    table = {}
+    for m in re.finditer(r"^\|\s*(\w+)\s*\|\s*([A-D ]+?)\s*\|\s*([A-D ]+?)\s*\|\s*$", src, re.M):
+        table[m.group(1)] = (m.group(2).split(), m.group(3).split())
+    if set(table) != {"dup", "over", "swap", "rot", "drop"}:
+        raise Broken("the scheme table of the shuffling words is no longer in builtin-shf.cc (found %s)" % sorted(table))
+
+    class El:
+        def __init__(self, name, code, clone_of=None):
+            self.name, self.code, self.clone_of = name, code, clone_of
+            self.addr = id(self)
+
+        def copy_value(self):
+            return self            # a unique_ptr that is moved keeps pointing at the same value
+
+        def __repr__(self):
+            return self.name + ("'" if self.clone_of else "")
+
+    class Ty:
+        def __init__(self, c):
+            self.m_code = c
+
+        def copy_value(self):
+            return Ty(self.m_code)
+    w = prog.globals.get("selector::W")
+    W = (w.get("init") or {}).get("iv") if w else None
+    if W is None:
+        raise Broken("selector::W is not a compile-time constant")
+    cur = {}
+    hooks = {
+        "zw_value::clone": lambda ev, o, a: El(o.name, o.code, clone_of=o),
+        "zw_value::get_type": lambda ev, o, a: Ty(o.code),
+        "value_type::code": lambda ev, o, a: o.m_code,
+        "op::next": lambda ev, o, a: cur.pop("stk", None),
+        "method:get": lambda ev, o, a: o,
+        "method:release": lambda ev, o, a: o,
+        "ctor:std::runtime_error": lambda ev, o, a: "exc",
+    }
+    ev = CxxEvaluator(hooks, {"selector::W": W}, prog=prog)
+    push = [f for f in prog.funcs.values() if f.get("cls") == "stack" and f["n"] == "push" and f.get("body") is not None]
+    if len(push) != 1:
+        raise Broken("anchor stack::push vanished")
+
+    def mkstack(names):
+        st = Obj("stack")
+        st.m_values, st.m_profile = Vec([], "values"), 0
+        els = []
+        for i, nm in enumerate(names):
+            e = El(nm, 1 + i % 2)
+            els.append(e)
+            ev.call(push[0], st, [e])
+        return st, els
+    for word, (before, after) in sorted(table.items()):
+        fs = [f for f in prog.funcs.values() if f["q"] == "op_%s::next" % word and f.get("body") is not None]
+        if len(fs) != 1:
+            raise Broken("anchor op_%s::next vanished" % word)
+        f = fs[0]
+        key = "P7:" + word
+        this = Obj("op_" + word)
+        this.m_upstream = Obj("upstream")
+        bad = None
+        need = {"dup": 1, "over": 2, "swap": 2, "rot": 3, "drop": 1}[word]
+        for depth in range(0, len(before) + 1):
+            names = before[len(before) - depth:]
+            st, els = mkstack(names)
+            cur["stk"] = st
+            try:
+                r = ev.call(f, this, [Obj("scon")])
+            except Thrown:
+                if depth >= need and bad is None:
+                    bad = "`%s` raises an error on the stack %s, which is deep enough" % (word, " ".join(names))
+                continue
+            except OutOfBounds as x:
+                bad = bad or "`%s` on the stack %s: %s" % (word, " ".join(names) or "(empty)", x)
+                continue
+            if depth < need:
+                bad = bad or "`%s` on the too shallow stack %s yields a result instead of the underflow error" % (word, " ".join(names) or "(empty)")
+                continue
+            if r is not st:
+                bad = bad or "`%s` does not yield the stack it pulled" % word
+                continue
+            got = r.m_values.items
+            want = after[len(before) - depth:] if depth == len(before) else None
+            if want is None:
+                # apply the documented permutation to the suffix that is present
+                full_before, full_after = before, after
+                keep = len(full_before) - depth
+                want = [x for x in full_after if x in names or False]
+                # positions: the table's effect only touches the top `need` values
+                want = full_after[keep:]
+            exp_names = want
+            if [g.name for g in got] != exp_names:
+                bad = bad or "`%s` turns %s into %s; documented: %s" % (word, " ".join(names), " ".join(repr(g) for g in got), " ".join(exp_names))
+                continue
+            # clones vs identity: names appearing more often after than before are copies, all others the same objects
+            by_name = {e.name: e for e in els}
+            seen = set()
+            for g in got:
+                orig = by_name[g.name]
+                if g.name not in seen:
+                    seen.add(g.name)
+                    if g is not orig and not (g.clone_of is orig and exp_names.count(g.name) > names.count(g.name)):
+                        bad = bad or "`%s` replaces the value %s by something else" % (word, g.name)
+                else:
+                    if g is orig or g.clone_of is not orig:
+                        bad = bad or "`%s` pushes the value %s itself a second time instead of a copy: two stack slots would own one value" % (word, g.name)
+            # profile consistent with the values (types of the top W values)
+            prof = 0
+            for d in range(min(W, len(got))):
+                prof |= got[-1 - d].code << (8 * d)
+            if (r.m_profile & 0xffffffff) != (prof & 0xffffffff):
+                bad = bad or "after `%s` the stack's type profile (%#x) does not describe its values (%#x): overload selection would read stale types" % (word, r.m_profile, prof)
+        inst.append((key, {"documented": "%s -> %s" % (" ".join(before), " ".join(after))}))
+        if bad:
+            findings.append({"key": key, "where": "libzwerg/" + f["l"], "msg": bad, "detail": None})
     return inst, findings
